@@ -21,7 +21,17 @@ Families (all generated; see main()):
   out in source order;
 * sequence: transfer_model called three times on the same folder with cache=True (thorough: also
   codegen=True): every call must give the same verdict and, for accepted models, a
-  delay_arguments_function (of the Model and of the CachedModels) equal to the source arguments.
+  delay_arguments_function (of the Model and of the CachedModels) equal to the source arguments;
+* shape: ARRAY-valued delayed expressions (vector, 1xn / nx1, true matrices 2x3, 3x2, 2x2) next to a
+  scalar delay, with and without expand_vectors: every delay state is paired BY NAME
+  ('_pymoca_delay_N[r,c]') with element [r,c] of the N-th delay() call and its duration;
+* loopidx: loop delays that use one array through several index expressions (x[i] - x[i-1], x[i+1],
+  x[5-i], x[2*i], stencils, two arrays, the loop variable as a factor), optionally a second delay in
+  the same loop that indexes the same array differently;
+* loopdur: loop delays whose DURATION depends on the loop index (tau[i], i * p, z[i], x[i-1], ...):
+  known finding (classes LOOPDUR_*), plus index-independent controls (tau[2], z[2], p, time).
+A model with an allowed duration that makes transfer_model raise anything (except environment errors)
+is reported as 'not accepted'.
 """
 import itertools
 import os
@@ -713,7 +723,16 @@ def main():
            "detect_aliases / expand_vectors / replace_constant_values: pairs containing a literal, 2 scalar eqs") + ". "
         "sequence: 14 durations x inside/outside loop x 3 consecutive transfer_model calls on one folder with cache=True"
         + (", cache+detect_aliases, cache+replace_constant_values, cache+expand_vectors; codegen=True (verdict only) for 14 durations" if thorough
-           else " and cache+detect_aliases") + ". All numeric values unbounded reals."
+           else " and cache+detect_aliases") + ". "
+        f"shape: {len(fam['shape'])} models with an array-valued delayed expression: shapes {', '.join(SHAPES.values())} x expressions "
+        f"{', '.join(SHAPE_EXPRS.values())} x durations {', '.join(t for t, _ in SHAPE_DURS.values())} x a scalar delay before/after x options "
+        f"{', '.join(n for n, _ in SHAPE_OPTSETS)}" + ("" if thorough else " (quick: all shapes x {x, 2*x} x {default, expand} x both orders with a parameter "
+        "duration; the other expressions / durations / option sets on the 2x3 and 3x2 matrices)") + "; delay states paired with source elements BY NAME. "
+        f"loopidx: {len(fam['loopidx'])} models, a delay in a for-loop over 1:4 / 2:4 / 1:3 / 2:3 / 1:2 whose expression is one of {len(LOOPIDX_EXPRS)} "
+        f"multi-index forms ({', '.join(e for _, _, e in LOOPIDX_EXPRS.values())}) x second delay in the same loop {'/'.join(LOOPIDX_SECOND)} x durations p, uf + c "
+        f"x options {', '.join(n for n, _ in LOOPIDX_OPTSETS)}" + ("" if thorough else " (quick: no second delay x p x default/expand; with second delay x uf + c x default)") + ". "
+        f"loopdur: {len(LOOPDUR)} loop durations ({', '.join(t for t, _ in LOOPDUR.values())}) x {'4' if thorough else '2'} option sets. "
+        "Every delayed element is compared positionally (source order) and by delay-state name. All numeric values unbounded reals."
     )
     rep.assumptions += ["'depends on' is syntactic occurrence in the duration expression; a variable that a pass eliminates counts as what it "
                         "is replaced by (alias of a fixed input under detect_aliases, constant-assigned algebraic variable under "
@@ -721,6 +740,8 @@ def main():
                         "value-replacing options may use the declared binding of the constants / parameters they remove",
                         "the parser's sqlite text cache is private to each worker process (its concurrency is C02's subject)",
                         "codegen: compiled C behind ca.external is not encoded, verdicts only",
+                        "delay state '_pymoca_delay_N[r,c]' stands for element [r,c] of the N-th delay() call in generator visiting order",
+                        "an exception other than the duration ValueError for a model with an allowed duration counts as 'not accepted' (sqlite / OS errors excepted)",
                         "real arithmetic; divisors non-zero"]
     if not cov.get("acceptance_decisions"):
         rep.harness_error("nothing decided")
